@@ -156,6 +156,10 @@ func alphabet(thorough bool) []sym {
 	add("item-nested-group1(ext2:f=7)", cat([]byte{0x0b, 0x0b, 0x10, 0x01, 0x0c, 0x10}, vi(1001), lenPref(0x1a, []byte{0x08, 0x07}), []byte{0x0c}))
 	add("item-nonminimal-id(ext1:f1=1)", cat([]byte{0x0b, 0x10, 0xe8, 0x87, 0x80, 0x00}, lenPref(0x1a, p1), []byte{0x0c}))
 	add("item-nonminimal-len(ext1:f1=1)", cat([]byte{0x0b, 0x10}, vi(1000), []byte{0x1a, 0x82, 0x00}, p1, []byte{0x0c}))
+	// the same non-minimal encodings on an item no extension resolves: it is kept as unknown bytes
+	add("item-nonminimal-len(unk5000:ab)", cat([]byte{0x0b, 0x10}, vi(5000), []byte{0x1a, 0x82, 0x00}, []byte("ab"), []byte{0x0c}))
+	add("item-nonminimal-id(unk5000:ab)", cat([]byte{0x0b, 0x10, 0x88, 0xa7, 0x80, 0x00}, lenPref(0x1a, []byte("ab")), []byte{0x0c}))
+	add("item-nonminimal-len-empty(unk5000)", cat([]byte{0x0b, 0x10}, vi(5000), []byte{0x1a, 0x80, 0x00}, []byte{0x0c}))
 	add("item-id0", cat([]byte{0x0b, 0x10, 0x00}, lenPref(0x1a, p1), []byte{0x0c}))
 	add("item-id2^31", cat([]byte{0x0b, 0x10}, vi(1<<31), lenPref(0x1a, p1), []byte{0x0c}))
 	add("item-id2^32+1000", cat([]byte{0x0b, 0x10}, vi(1<<32+1000), lenPref(0x1a, p1), []byte{0x0c}))
@@ -284,6 +288,7 @@ func checkInput(c *core.Ctx, f flavor, in []byte, name string, wrapped bool, opt
 		}
 		return fmt.Sprintf("%s type=%s%s input=%s", cl, f.Name, w, name)
 	}
+	paddedUnknown := strings.Contains(name, "item-nonminimal-len(unk") || strings.Contains(name, "item-nonminimal-id(unk") || strings.Contains(name, "item-nonminimal-len-empty(unk")
 	c.Eval(1)
 	switch {
 	case !p.ok:
@@ -370,8 +375,30 @@ func checkInput(c *core.Ctx, f flavor, in []byte, name string, wrapped bool, opt
 				return
 			}
 			// content
-			if gs, ws := univ.Snapshot(got), univ.Snapshot(e.msg); gs != ws {
+			// unknown items are compared as records: how the decoder keeps the length
+			// prefix of an unresolvable item (verbatim or minimal) is not constrained
+			if gs, ws := univ.SnapshotCanon(got), univ.SnapshotCanon(e.msg); gs != ws {
 				c.Violation(sig("decoded content differs from the item-wise reference opts="+o.n), map[string]any{"input": fmt.Sprintf("%x", in), "got": gs, "want": ws})
+				return
+			}
+			if paddedUnknown && !o.discard {
+				// An unresolvable item whose id or length varint is padded: whether the
+				// stored unknown bytes keep the padding is not constrained, so the
+				// byte-exact clauses (canonical encoding, Equal with the minimal
+				// reference) do not apply. What must still hold: Size is the length
+				// of what Marshal writes, and the encoding decodes to the same content.
+				bd, merr := proto.MarshalOptions{AllowPartial: true, Deterministic: true}.Marshal(got.Interface())
+				if merr != nil {
+					c.Violation(sig("Marshal of a message holding a padded unknown item fails opts="+o.n), merr.Error())
+					return
+				}
+				if s := proto.Size(got.Interface()); s != len(bd) {
+					c.Violation(sig(fmt.Sprintf("Size=%d != len(Marshal)=%d for a message holding a padded unknown item opts=%s", s, len(bd), o.n)), fmt.Sprintf("%x", bd))
+				}
+				back, err := f.Unmarshal(bd, proto.UnmarshalOptions{AllowPartial: true})
+				if err != nil || univ.SnapshotCanon(back) != univ.SnapshotCanon(got) {
+					c.Violation(sig("Unmarshal(Marshal(m)) != m opts="+o.n), fmt.Sprint(err))
+				}
 				return
 			}
 			if !proto.Equal(got.Interface(), e.msg.Interface()) {
@@ -494,7 +521,7 @@ func checkContent(c *core.Ctx, f flavor, ct content) {
 }
 
 func run(c *core.Ctx) {
-	c.Rule = "MessageSet (protolegacy build). Reference = an item-grammar parser built on the reference wire splitter: Item = group 1; type_id = last varint field 2; message = concatenation of bytes fields 3; other fields in an item ignored. (a) EVERY sequence of <=k symbols (quick k=2, thorough k=3) from an alphabet of item encodings (4 known extensions incl. a required one and number 2^29, unknown ids in and below the extension range and MaxInt32, payloads: empty / valid / non-minimal / unknown fields / wrong wire type / truncated; field orders id-first, message-first, id between two message fields, two message fields (short, and long ones whose combined length crosses 127/128), two ids, no id, no message, extra fields, nested group, non-minimal id and length; malformed items; non-item top-level fields) is decoded by the open, hybrid and opaque generated types and dynamicpb, directly and nested in MessageSetContainer, with default / AllowPartial options (DiscardUnknown is checked under C09): verdict = (well-formed AND every known payload parses AND (partial OR required present)); decoded content = reference message built item-wise with ordinary Merge-Unmarshal of each payload, unknown items preserved in order; Size == len(Marshal) both before any access (lazy extension bytes) and after; deterministic encoding == canonical item sequence (extensions ascending, then unknown items); re-encoding denotes the same content; Unmarshal(Marshal(m)) == m. Invalid type ids (0, >MaxInt32) only must not panic; inputs with id-less items or non-item fields are only required to round trip. (b) EVERY content in the product {ext1: absent/4 values} x {ext2: absent/2} x {required ext: absent/missing/present} x {large-number ext: absent/2} x {4 unknown-item lists} built through reflection: Size, canonical bytes, one item per extension, round trip, container nesting. The whole check is repeated in the protolegacy,protoreflect build (reflection path for generated types) as a child process"
+	c.Rule = "MessageSet (protolegacy build). Reference = an item-grammar parser built on the reference wire splitter: Item = group 1; type_id = last varint field 2; message = concatenation of bytes fields 3; other fields in an item ignored. (a) EVERY sequence of <=k symbols (quick k=2, thorough k=3) from an alphabet of item encodings (4 known extensions incl. a required one and number 2^29, unknown ids in and below the extension range and MaxInt32, payloads: empty / valid / non-minimal / unknown fields / wrong wire type / truncated; field orders id-first, message-first, id between two message fields, two message fields (short, and long ones whose combined length crosses 127/128), two ids, no id, no message, extra fields, nested group, non-minimal id and length on known and on unresolvable items; malformed items; non-item top-level fields) is decoded by the open, hybrid and opaque generated types and dynamicpb, directly and nested in MessageSetContainer, with default / AllowPartial options (DiscardUnknown is checked under C09): verdict = (well-formed AND every known payload parses AND (partial OR required present)); decoded content = reference message built item-wise with ordinary Merge-Unmarshal of each payload, unknown items preserved in order; Size == len(Marshal) both before any access (lazy extension bytes) and after; deterministic encoding == canonical item sequence (extensions ascending, then unknown items); re-encoding denotes the same content; Unmarshal(Marshal(m)) == m. For inputs holding an unresolvable item with a padded id or length varint the byte-exact clauses are replaced by Size == len(Marshal) and a content-preserving round trip (whether the padding is kept in the unknown bytes is not constrained). Invalid type ids (0, >MaxInt32) only must not panic; inputs with id-less items or non-item fields are only required to round trip. (b) EVERY content in the product {ext1: absent/4 values} x {ext2: absent/2} x {required ext: absent/missing/present} x {large-number ext: absent/2} x {4 unknown-item lists} built through reflection: Size, canonical bytes, one item per extension, round trip, container nesting. The whole check is repeated in the protolegacy,protoreflect build (reflection path for generated types) as a child process"
 	c.Exhaustive = true
 	var child *core.Child
 	if !core.IsChild() {
